@@ -106,13 +106,52 @@ pub fn run_line(line: &str) -> String {
         match std::fs::read_to_string(format!("{}/{}", std::env::var("RSSL_REPO").unwrap_or("/repo".into()), rel)) { Ok(t) => vec![("main.rssl".into(), t)], Err(_) => return "BAD-CASE".into() }
     } else if let Some(name) = spec[0].strip_prefix("c14:") {
         match crate::c14::program_files(name) { Some(f) => f, None => return "BAD-CASE".into() }
+    } else if let Some(p) = spec[0].strip_prefix("probe:") {
+        // probe:<macro name>:<k>: a program whose thread-group size and resources depend on a predefined macro
+        let mut it = p.split(':');
+        let (name, k) = (it.next().unwrap_or("X"), it.next().and_then(|x| x.parse::<u32>().ok()).unwrap_or(0));
+        vec![("main.rssl".into(), probe_program(name, k))]
     } else { return "BAD-CASE".into() };
     compare(&files, nopipe)
+}
+
+fn probe_program(name: &str, k: u32) -> String {
+    let cond = match k {
+        0 => format!("#ifdef {}", name),
+        1 => format!("#ifndef {}", name),
+        2 => format!("#if defined({}) && {} >= 1", name, name),
+        3 => format!("#if {} > 2000", name),
+        4 => format!("#if {} == 2021", name),
+        _ => format!("#if {} + 0 == {}", name, k),
+    };
+    format!("{}\nTexture2D<float4> g_a;\n#define GROUP 64\n#else\nByteAddressBuffer g_b;\n#define GROUP 32\n#endif\nRWByteAddressBuffer g_out;\n[numthreads(GROUP, 1, 1)] void CS() {{ g_out.Store(0, 1u); }}\nPipeline Main {{ ComputeShader = CS; }}\n", cond)
+}
+
+/// the names the compiler predefines (string literals of the initial-defines section of compile()), plus names programs
+/// commonly test
+pub fn predefined_names() -> Vec<String> {
+    let root = std::env::var("RSSL_REPO").unwrap_or("/repo".into());
+    let src = std::fs::read_to_string(format!("{}/src/compile.rs", root)).unwrap_or_default();
+    let region = src.split("let mut defines").nth(1).and_then(|r| r.split("defines.extend").next()).unwrap_or("");
+    let mut out: Vec<String> = Vec::new();
+    let mut rest = region;
+    while let Some(i) = rest.find('"') {
+        let r = &rest[i + 1..];
+        let j = r.find('"').unwrap_or(r.len());
+        let lit = &r[..j];
+        if !lit.is_empty() && lit.chars().all(|c| c.is_ascii_alphanumeric() || c == '_') && !lit.chars().next().unwrap().is_ascii_digit() && !lit.starts_with("RSSL_TARGET") { out.push(lit.to_string()); }
+        rest = &r[(j + 1).min(r.len())..];
+    }
+    for n in ["__HLSL_VERSION", "__cplusplus", "__METAL_VERSION__", "RSSL", "__RSSL__", "__spirv__", "__hlsl_dx_compiler", "__SHADER_TARGET_MAJOR"] { out.push(n.to_string()); }
+    out.sort();
+    out.dedup();
+    out
 }
 
 pub fn gen_cases(seed: u64, n: usize, _thorough: bool) -> Vec<String> {
     let mut rng = Rng::new(seed);
     let mut out = Vec::new();
+    for name in predefined_names() { for k in 0..6 { out.push(format!("X probe:{}:{} all", name, k)); } }
     let root = std::env::var("RSSL_REPO").unwrap_or("/repo".into());
     for dir in ["tests/basic", "hlsl/tests", "msl/tests"] {
         if let Ok(rd) = std::fs::read_dir(format!("{}/{}", root, dir)) {
